@@ -48,11 +48,11 @@ def generate(rng, tier):
     big = 12 if tier == "quick" else 30
     for i in range(n1):
         prog = X.gen_program(rng, rng.randint(3, big if rng.random() < 0.3 else 9), 0, p_der=0.25)
-        ops = X.gen_ops(rng, prog, rng.randint(10, 60), w=(0.38, 0.05, 0.57, 0, 0, 0))
+        ops = X.gen_ops(rng, prog, rng.randint(10, 60), w=(0.38, 0.05, 0.57, 0, 0, 0), p_drop=0.2)
         yield dict(case=C.norm([prog, ops]), kind="memos", compare=True)
     for i in range(n2):
         prog = X.gen_program(rng, rng.randint(4, 11), rng.randint(1, 3), allow_wr=False, p_der=0.25)
-        ops = X.gen_ops(rng, prog, rng.randint(10, 40), w=(0.32, 0.04, 0.36, 0.14, 0.12, 0.02))
+        ops = X.gen_ops(rng, prog, rng.randint(10, 40), w=(0.32, 0.04, 0.36, 0.14, 0.12, 0.02), p_drop=0.2)
         yield dict(case=C.norm([prog, ops]), kind="memos+effects", compare=True)
 
 
